@@ -68,9 +68,12 @@ def _worker_job(job: Dict[str, Any]) -> Dict[str, Any]:
         out.update({"state": "WORKER_CRASH", "message": "harness module failed to import: " + _INIT_ERROR, "paths": 0, "reached": 0, "fails": [], "time_s": 0, "cpu_s": 0})
         return out
     try:
+        import importlib
+
+        mod = importlib.import_module(job["module"]) if job.get("module") else _MOD
         for k, v in job.get("globals", {}).items():
-            setattr(_MOD, k, v)
-        fn = getattr(_MOD, job["fn"])
+            setattr(mod, k, v)
+        fn = getattr(mod, job["fn"])
         xs.TWIN = False
         xs.REACHED = 0
         xs.FAILS.clear()
@@ -127,8 +130,8 @@ def run_jobs(run: Run, module: str, jobs: List[Dict[str, Any]], nproc: int = NCP
     finally:
         pool.terminate()
         pool.join()
-    for r in results:
-        r["module"] = module
+    for r, j in zip(results, jobs):
+        r["module"] = j.get("module") or module
         run.counters["xh_conditions"] += 1
         run.counters["xh_paths"] += r.get("paths", 0) + r.get("twin_paths", 0)
         run.counters["xh_paths_reaching_assertion"] += r.get("reached", 0)
